@@ -25,11 +25,6 @@ NS_EXTRA = [
 ]
 
 
-def lint(doc, i):
-    p = '/tmp/wfx/ns%d.xml' % (i % 8)
-    return None
-
-
 def main():
     n = int(sys.argv[1]) if len(sys.argv) > 1 else 4000
     seed = int(sys.argv[2]) if len(sys.argv) > 2 else 1
